@@ -41,3 +41,17 @@ uint64_t drv_generic_field(const uint8_t *desc, int n, uint8_t *pdu, int field, 
     if (set) { Avtp_SetField(tab, (uint8_t)n, pdu, (uint8_t)field, v); return 0; }
     return Avtp_GetField(tab, (uint8_t)n, pdu, (uint8_t)field);
 }
+
+/* one optimised caller that reaches the payload both ways - through the pointer Avtp_Can_GetPayload returns and through the message
+ * itself: the last store wins, whichever path made it (what the header tells the compiler about the returned pointer must be true) */
+uint64_t drv_can_payload_two_ways(void *pdu, uint8_t first, uint8_t second) {
+    Avtp_Can_t *m = (Avtp_Can_t *)pdu;
+    uint8_t *p = Avtp_Can_GetPayload(m);
+    uint64_t r;
+    m->payload[0] = first;
+    p[0] = second;
+    r = m->payload[0];
+    m->payload[1] = first;
+    r |= (uint64_t)p[1] << 8;
+    return r;  /* second | first << 8 */
+}
